@@ -112,6 +112,14 @@ def create_machine(
     # -------------------------------------------------------------------------
     # ☝️ Step 1: Determine the Source of Business Logic
     # -------------------------------------------------------------------------
+    # 🛡️ The configuration is a mapping by contract. Anything else used to
+    #    surface as a raw "'NoneType' object has no attribute 'get'".
+    if not isinstance(config, dict):
+        raise InvalidConfigError(
+            "Machine configuration must be a dictionary, got "
+            f"'{type(config).__name__}'."
+        )
+
     final_logic: MachineLogic
     if logic:
         # ✅ Path 1: Use the explicitly provided logic instance.
